@@ -5,7 +5,7 @@
   Fragment: 64-bit `int` variables; expressions + - * & | ^ / % (run-time panic on a zero
   divisor), unary - and ^; conditions built from the six comparisons with !, && and ||
   (short-circuit); statements: assignment/definition, fmt.Println of one int, if/else,
-  `for cond { }`, `for init; cond; post { }`, break, continue, switch (tag or conditions, default last,
+  `for cond { }`, `for init; cond; post { }`, break, continue, labelled break / continue, switch (tag or conditions, default last,
   fallthrough), blocks; declared functions of int parameters returning one int, called in the form
   `x = f(args…)` (arguments copied, recursion allowed), `return e`.
   Output is the list of printed values; a run ends normally or with a run-time panic.
@@ -44,6 +44,8 @@ mutual
     | loop (c : BExpr) (body post : Stmt)     -- for ; c ; post { body }
     | brk
     | cont
+    | brkL (n : Nat)                          -- break L, L labelling the n-th enclosing loop (0 = innermost)
+    | contL (n : Nat)                         -- continue L
     | switch (cs : Clauses)                   -- switch { case c1: … ; case c2: … ; default: … }
     | ret (e : Expr)                          -- return e
     | call (x : Nat) (g : Nat) (args : List Expr)   -- x = f_g(args…)
@@ -104,7 +106,7 @@ def BExpr.eval (s : St) : BExpr → Option Bool
     | none => none
 
 /-- how a statement ends -/
-inductive Sig where | normal | brk | cont | panic | ret (v : Val)
+inductive Sig where | normal | brk | cont | panic | ret (v : Val) | brkL (n : Nat) | contL (n : Nat)
   deriving Repr, DecidableEq
 
 /-- the declared functions: body of function `g` (its parameters are its variables 0 … n-1);
@@ -129,6 +131,24 @@ def callResult (s : St) (x : Nat) : Option (Sig × St) → Option (Sig × St)
   | some (.ret v, s1) => some (.normal, { vars := (s.set x v).vars, out := s1.out })
   | some (.panic, s1) => some (.panic, s1)      -- the panic unwinds through the caller
   | some (_, s1) => some (.normal, { vars := (s.set x 0).vars, out := s1.out })   -- fell off the end: not valid Go
+
+/-- what a loop does with the way its body ended -/
+inductive LoopAct where
+  | stop                       -- out of fuel
+  | exit (r : Sig × St)        -- the loop statement ends with this signal
+  | post (s : St)              -- go on with the post statement and the next iteration
+
+def loopStep : Option (Sig × St) → LoopAct
+  | none => .stop
+  | some (.brk, s1) => .exit (.normal, s1)
+  | some (.panic, s1) => .exit (.panic, s1)
+  | some (.ret v, s1) => .exit (.ret v, s1)
+  | some (.brkL 0, s1) => .exit (.normal, s1)            -- break L with L this loop
+  | some (.brkL (n + 1), s1) => .exit (.brkL n, s1)      -- … an enclosing loop
+  | some (.contL (n + 1), s1) => .exit (.contL n, s1)
+  | some (.contL 0, s1) => .post s1                      -- continue L with L this loop
+  | some (.cont, s1) => .post s1
+  | some (.normal, s1) => .post s1
 
 /-- left-to-right evaluation of call arguments; `none` = one of them panics -/
 def evalArgs (s : St) : List Expr → Option (List Val)
@@ -165,19 +185,19 @@ def exec (fs : Funs) : Nat → Stmt → St → Option (Sig × St)
     | none => some (.panic, s)
     | some false => some (.normal, s)
     | some true =>
-      match exec fs f body s with
-      | some (.brk, s1) => some (.normal, s1)
-      | some (.panic, s1) => some (.panic, s1)
-      | some (.ret v, s1) => some (.ret v, s1)
-      | some (_, s1) =>                      -- normal end of the body, or continue
+      match loopStep (exec fs f body s) with
+      | .stop => none
+      | .exit r => some r
+      | .post s1 =>                      -- normal end of the body, continue, or continue L with L this loop
         match exec fs f post s1 with
         | some (.normal, s2) => exec fs f (.loop c body post) s2
         | some (.panic, s2) => some (.panic, s2)
         | some (_, s2) => some (.panic, s2)   -- break/continue/return in a post statement: not valid Go
         | none => none
-      | none => none
   | _ + 1, .brk, s => some (.brk, s)
   | _ + 1, .cont, s => some (.cont, s)
+  | _ + 1, .brkL n, s => some (.brkL n, s)
+  | _ + 1, .contL n, s => some (.contL n, s)
   | f + 1, .switch cs, s =>
     match execClauses fs f cs s with
     | some (.brk, s1) => some (.normal, s1)        -- `break` inside a switch leaves the switch
